@@ -12,7 +12,7 @@ sys.path.insert(0, os.path.dirname(os.path.dirname(os.path.abspath(__file__))))
 from bounded import common, docsnap, layout  # noqa: E402
 
 VARIANTS = ["lists-reversed", "lists-shuffled", "zip-reversed-stored", "zip-deflated", "package", "rechunk-1k",
-            "rechunk-random", "rechunk-one", "offsets-switched", "offsets-mixed", "empty-row-headers"]
+            "rechunk-random", "rechunk-one", "offsets-switched", "offsets-mixed", "empty-row-headers", "empty-row-records"]
 
 
 def build_variant(members, variant, out, seed):
@@ -40,6 +40,10 @@ def build_variant(members, variant, out, seed):
         layout.write_zip(layout.switch_offsets(members, every=2), out)
     elif variant == "empty-row-headers":
         ms, added = layout.add_empty_row_headers(members)
+        layout.write_zip(ms, out)
+        return added
+    elif variant == "empty-row-records":
+        ms, added = layout.add_empty_row_records(members)
         layout.write_zip(ms, out)
         return added
     else:
@@ -101,6 +105,9 @@ def main():
     if a.fixtures:
         fs = fs[: a.fixtures]
     cases = [{"path": f, "variant": v, "seed": a.seed} for f in fs for v in VARIANTS]
+    # fixtures that have rows without a record in their tiles: the same table with an explicit (cell-less) record for each of them
+    extra = [f for f in docsnap.fixtures() if os.path.basename(f) in ("issue-14.numbers", "test-empty-rows.numbers", "issue-73.numbers") and f not in fs]
+    cases += [{"path": f, "variant": "empty-row-records", "seed": a.seed} for f in extra]
     cases += [{"path": "built:large", "variant": v, "seed": a.seed} for v in ("rechunk-one", "rechunk-1k", "rechunk-random", "package", "zip-reversed-stored")]
     return common.run(cases, run_case)
 
